@@ -1,0 +1,11 @@
+//go:build verif
+
+package types
+
+// Contracts for the verification framework in /verif (comment-only file; compiled
+// only with -tags verif, where it contributes nothing but these comments).
+
+//@ // ---- C13: the vesting denomination ----
+//@ func (p Params) Validate() (err)
+//@   ensures (err == nil) == (len(p.Denom) != 0)
+//@   prop C13
